@@ -162,6 +162,12 @@ def run_case(ns, rec, chunks, plans, trailing_break, prelude=()):
                     return
             for op in extra:
                 got = getattr(r, op[0])(*op[1:])
+                if isinstance(got, bytearray):
+                    # the caller owns what get_bytes returned and goes on using it as a scratch buffer
+                    kept = bytes(got)
+                    got += b"abc\x02"
+                    rec.count("returned-bytearrays-scribbled-on")
+                    got = kept
                 if k != len(fields):
                     # what a mistyped read returns is decided by this chunk alone: a reader that sees nothing but this
                     # chunk (and has read nothing before) is asked the same questions below
